@@ -44,18 +44,11 @@ type RWMutex struct {
 	// that an unlock goes the same way as its lock.
 	hookW bool
 	hookR int
-	// pendingW: writers waiting in Lock under the hook.
-	pendingW int
 }
 
 func (m *RWMutex) Lock() {
 	if h := Hook; h != nil {
-		// As sync.RWMutex: a Lock that has to wait keeps NEW readers out (so a
-		// goroutine that takes the read lock twice deadlocks with a writer
-		// arriving in between).
-		m.pendingW++
 		h.BlockUntil("Lock", func() bool { return !m.writer && m.readers == 0 })
-		m.pendingW--
 		m.writer, m.hookW = true, true
 		return
 	}
@@ -75,7 +68,7 @@ func (m *RWMutex) Unlock() {
 
 func (m *RWMutex) RLock() {
 	if h := Hook; h != nil {
-		h.BlockUntil("RLock", func() bool { return !m.writer && m.pendingW == 0 })
+		h.BlockUntil("RLock", func() bool { return !m.writer })
 		m.readers++
 		m.hookR++
 		return
